@@ -322,3 +322,18 @@ PROPS["C19"] = dict(
     rule="non-trivial = a session with an end event, or a header with a veto; distinct by SHA-1 of the case JSON",
     tests=[dict(name="TestVF_C19", env=dict(VERIF_CASE_LIMIT=300), quick=dict(checks=192, shards=32, timeout=900, shrink="60s"), thorough=dict(checks=3000, shards=32, timeout=10000, shrink="120s"))],
 )
+
+PROPS["C13"] = dict(
+    level="exploration", engine="E4 relay-sched (yield-instrumented in-process relay)",
+    technique="schedule fuzzing + property-based testing (rapid): generated arrival patterns around the relay's handshake and generated delay plans at textual yield points of relay.go / buffer.go; positional byte-conservation oracle",
+    level_text="An in-process relay built from the yield-instrumented relay.go and buffer.go of the current tree is driven by a scripted client and server: 1-3 consecutive transfers, standby chunks both ways, a trigger chunk with "
+               "prefix and suffix, the ACT line and the client bytes after it cut anywhere (inside the line, exactly at its newline, one chunk), the CFG line and the server bytes after it likewise and delivered before or after the "
+               "forwarded ACT, transfer-phase chunks, an end marker (#EXIT / #fail / #FAIL / lone Ctrl-C from either side), outcomes confirm / client cancels / malformed ACT / malformed CFG; plus a plan of 0-4 (site, hit, delay) triples "
+               "over the instrumented sites (status / lock / buffer / channel sites weighted x4; delays Gosched x1..20, 100 us .. 20 ms). Oracle: positional conservation - the stream towards the server is the standby bytes, then exactly "
+               "the relay-made lines expected for the outcome, then every client byte after the consumed line, in order; likewise towards the client with the relayed trigger; after the end marker both directions are the identity again.",
+    level_note="Go's scheduler is not owned: delays at instrumented points sample interleavings, no exhaustiveness claim. Standby traffic is fully relayed before a trigger is fed and nothing but the ACT / CFG line is sent between trigger and "
+               "handshake line (bytes in front of a handshake line are discarded by design). End markers are fed once the relay is transferring (DESIGN.md, observation on C14).",
+    rule="non-trivial = at least one byte besides the ACT/CFG line was fed while the relay was handshaking, or a chunk boundary fell inside the ACT line; distinct by SHA-1 of the case JSON; labels report how often a delay fired",
+    tests=[dict(name="TestVF_C13", env=dict(VERIF_CASE_LIMIT=120), quick=dict(checks=4000, shards=16, timeout=900), thorough=dict(checks=300000, shards=16, timeout=20000))],
+)
+PROPS["C13"]["yield"] = ["relay.go", "buffer.go"]
